@@ -72,7 +72,9 @@ impl<'a> PrettyPrinter<'a> {
             return prefix_doc;
         }
 
-        let import_items_doc = self.convert_import_items(ctx, import_items_nodes);
+        // A comment anywhere in the import (also before the items) pins the order of the items.
+        let can_reorder = !contains_comment(import.to_untyped());
+        let import_items_doc = self.convert_import_items(ctx, import_items_nodes, can_reorder);
         prefix_doc + self.arena.space() + import_items_doc
     }
 
@@ -80,10 +82,12 @@ impl<'a> PrettyPrinter<'a> {
         &'a self,
         ctx: Context,
         mut import_items_nodes: Vec<&'a SyntaxNode>,
+        can_reorder: bool,
     ) -> ArenaDoc<'a> {
         // Sort import items if the configuration allows it.
         // The sorting is only applied if all nodes are not comments and if there are no duplicate names.
         if self.config.reorder_import_items
+            && can_reorder
             && import_items_nodes.iter().all(|node| !contains_comment(node))
             && check_import_name_duplication(&import_items_nodes)
         {
